@@ -1,5 +1,20 @@
-(* EngineProofs.v — proofs about Engine.v: C01 (reads return the latest acknowledged write
-   through every layer) and C08 (sequence numbers strictly increase). *)
+(* EngineProofs.v — proofs about Engine.v.
+     T1 / C01: reads return the latest acknowledged write through every layer
+               (C01_read_latest, C01_flush_invariant, C01_reopen_invariant, C01_error_no_effect,
+                ssts_agree + ssts_agree_reopen_refuted)
+     T2 / C08: sequence numbers strictly increase
+               (C08_monotone, C08_reported_monotone, C08_log_order, C08_overflow_rejects,
+                C08_lostlog_refuted)
+   Structure: Part A list helpers; Part B memtable (Find after ordered inserts, on top of
+   MemtableProofs); Part C histories and the invariant [Inv s h], reads under it; Part D one
+   preservation lemma per operation (Inv_init, Inv_write + Inv_maybe_schedule =>
+   Inv_apply_batch / Inv_put / Inv_del, Inv_flush, Inv_reopen_ok / Inv_reopen_fail);
+   Part E runs ([step_hist], [epoch], Inv_step, Inv_run) and the theorems; Part F the
+   SSTable invariant [SInv]/[InvS] for runs without a reopen, again one lemma per operation.
+   To add an operation: extend [step_hist] with what it acknowledges, prove Inv_<op> (and
+   InvS_<op>), add the case to Inv_step / InvS_step, lost_log_step_mono, step_hist_fst/snd.
+   No well-formedness hypothesis on the configuration is needed: a configuration whose
+   memtable budget cannot hold the log makes recovery fail, which sets lost_log. *)
 From Coq Require Import Lia ZifyN ZifyNat ZifyBool Sorted Permutation.
 From KV Require Import Bytes Spec Memtable MemtableProofs WalCodec Engine.
 Open Scope N_scope.
@@ -71,12 +86,10 @@ Module Tests.
   Definition chk (c : config) (p : list op) (ks : list bytes) :=
     (lost_log (run c p), map (fun k => (get (run c p) k, spec_get (acked (init c) p) k)) ks,
      ack_seqs (init c) p).
+  (* get vs spec_get per key, and the acknowledged numbers; the last configuration loses the log *)
   Eval vm_compute in chk cA pA [k1; k2; k3; [9]].
-  Eval vm_compute in chk (mkCfg 1 100) pA [k1; k2; k3; [9]].
-  Eval vm_compute in chk (mkCfg 1000 2) pA [k1; k2; k3; [9]].
   Eval vm_compute in chk (mkCfg 0 100) pA [k1; k2; k3; [9]].
   Eval vm_compute in chk (mkCfg 1 3) pA [k1; k2; k3; [9]].
-  Eval vm_compute in (map (fun t => (s_num t, s_ts t, s_entries t)) (ssts (run cA pA))).
 End Tests.
 
 (* ------------------------------------------------------------------------------------ *)
@@ -1856,4 +1869,45 @@ Proof.
   assert (Hm' : In m (active s :: imms s)).
   { destruct Hm as [<-|Hm]; [left; reflexivity|right; apply (inv_pending s h I); exact Hm]. }
   exact (proj2 (proj2 (flushed_entries_spec m (layer_sorted s h m I Hm') Hi))).
+Qed.
+
+(* boolean check of recency, to refute it on concrete runs *)
+Definition pair_ok_b (t1 t2 : list sentry) : bool :=
+  forallb (fun x => forallb (fun y => if beq (sk x) (sk y) then sseq x <=? sseq y else true) t2) t1.
+Fixpoint recency_b (tabs : list (list sentry)) : bool :=
+  match tabs with [] => true | t :: r => forallb (pair_ok_b t) r && recency_b r end.
+
+Lemma recency_b_complete : forall T, recency T -> recency_b T = true.
+Proof.
+  intros T R. induction R as [|t r _ IH Hf]; [reflexivity|].
+  cbn [recency_b]. rewrite IH, andb_true_r. apply forallb_forall. intros t2 Ht2.
+  rewrite Forall_forall in Hf. specialize (Hf t2 Ht2).
+  unfold pair_ok_b. apply forallb_forall. intros x Hx. apply forallb_forall. intros y Hy.
+  destruct (beq (sk x) (sk y)) eqn:B; [|reflexivity]. apply beq_true_iff in B.
+  apply N.leb_le. exact (Hf x y Hx Hy B).
+Qed.
+
+Module ssts_example.
+  Import C01_example.
+  Definition prog_noreopen : list op :=
+    filter (fun o => match o with OReopen => false | _ => true end) prog.
+  Example tables : tabs_of (run cfg0 prog_noreopen) =
+    [[mkS k1 1 (Some [11]); mkS k3 3 (Some [13]); mkS k2 2 (Some [12])];
+     [mkS k1 4 (Some [14]); mkS k3 6 None; mkS k2 6 (Some [16]); mkS k4 6 (Some [17])];
+     [mkS k1 8 (Some [20]); mkS k3 7 (Some [18]); mkS k4 8 None];
+     [mkS k4 10 (Some [21])]].
+  Proof. vm_compute. reflexivity. Qed.
+  (* after a reopen the recovered immutable tables are flushed again, behind newer tables *)
+  Definition c1 := mkCfg 1 5.
+  Definition prog1 : list op := [OPut k1 [1]; OPut k1 [2]; OFlush; OReopen; OFlush].
+  Example tables1 : lost_log (run c1 prog1) = false /\ tabs_of (run c1 prog1) =
+    [[mkS k1 1 (Some [1])]; [mkS k1 2 (Some [2])]; [mkS k1 1 (Some [1])]].
+  Proof. vm_compute. split; reflexivity. Qed.
+End ssts_example.
+
+Theorem ssts_agree_reopen_refuted : exists c ops,
+  lost_log (run c ops) = false /\ ~ recency (tabs_of (run c ops)).
+Proof.
+  exists ssts_example.c1, ssts_example.prog1. split; [vm_compute; reflexivity|].
+  intros R. apply recency_b_complete in R. vm_compute in R. discriminate.
 Qed.
